@@ -145,6 +145,15 @@ def coq_makefile():
             raise RuntimeError("coq_makefile failed:\n" + out)
 
 
+
+def lv_imports(text):
+    """module names after `From LV Require [Import|Export]` (statement ends at a period followed by whitespace)"""
+    text = re.sub(r"\(\*.*?\*\)", "", text, flags=re.S)
+    mods = []
+    for m in re.finditer(r"From\s+LV\s+Require\s+(?:Import\s+|Export\s+)?(.*?)\.(?=\s|$)", text, re.S):
+        mods += m.group(1).split()
+    return mods
+
 def coq_closure(vfile):
     """the .v files (relative to coq/) a theory file depends on inside this project"""
     seen, todo = [], [vfile]
@@ -154,11 +163,10 @@ def coq_closure(vfile):
             continue
         seen.append(f)
         src = open(os.path.join(COQ, f)).read()
-        for m in re.finditer(r"From\s+LV\s+Require\s+(?:Import|Export)?\s*([^.]*(?:\.[A-Za-z_][\w.]*)*)\s*\.\s", src):
-            for mod in m.group(1).split():
-                path = "theories/" + mod.replace(".", "/") + ".v"
-                if os.path.exists(os.path.join(COQ, path)):
-                    todo.append(path)
+        for mod in lv_imports(src):
+            path = "theories/" + mod.replace(".", "/") + ".v"
+            if os.path.exists(os.path.join(COQ, path)):
+                todo.append(path)
     return sorted(seen)
 
 
@@ -235,9 +243,8 @@ def build_model(pid):
         deps = [src, os.path.join(ROOT, "extract", "driver.ml")]
         text = open(src).read()
         vos = []
-        for m in re.finditer(r"From\s+LV\s+Require\s+Import\s+([^.]*(?:\.[\w.]*)*)\.\s", text):
-            for mod in m.group(1).split():
-                vos.append("theories/" + mod.replace(".", "/") + ".vo")
+        for mod in lv_imports(text):
+            vos.append("theories/" + mod.replace(".", "/") + ".vo")
         with Lock("coq"):
             coq_makefile()
             rc, out, _ = sh(["make", "-C", COQ, "-j16"] + vos, 1500)
